@@ -39,6 +39,8 @@ def _observe(case):
         e = EJ.from_json(t)
         if t['k'] == 'aff':
             rec['w'] = [EJ.to_json(x) for x in e.get_w()]
+            rec['rmr'] = [EJ.to_json(x) for x in e.get_r(mem_read=True)]
+            rec['r0'] = [EJ.to_json(x) for x in e.get_r()]
         else:
             rec['rmr'] = [EJ.to_json(x) for x in e.get_r(mem_read=True)]
             rec['r0'] = [EJ.to_json(x) for x in e.get_r()]
@@ -134,6 +136,8 @@ def run(tier, chk):
     pats += [x for x in deep if not quick or rnd.random() < 0.12]
     # slices of concatenations (a slice that starts or ends inside a part) need four nodes and the width 16
     items += [x for x in gen_derived(4, [8, 16], ['+'], ['plain'], chk) if x['e']['k'] in ('slice', 'compose', 'cond', 'mem')]
+    # partial assignments (the source keeps the same-position slice of the destination): read sets of assignments
+    items += gen_derived(3, [8, 32], ['+', '&'], ['paff'], chk) + gen_derived(3, [16], ['+'], ['paff'], chk)
     if quick:
         # conditions, slices and memory cells under another node need four nodes: a narrower alphabet at that bound
         more = gen_derived(4, [8, 32], ['+', '=='], ['plain'], chk)
